@@ -5,7 +5,7 @@ import srvflow
 INV = ["T_C03_NoLostWake"]
 DESIGN = ["MC_core_quick.cfg", "MC_core_l1.cfg", "MC_core_w1.cfg", "MC_core_2l.cfg", "MC_cmd_quick.cfg"]
 EDGES = ["MC_core_quick.cfg", "MC_core_l1.cfg", "MC_core_w1.cfg", "MC_cmd_quick.cfg"]
-THOROUGH = ["MC_core_w3.cfg", "MC_core_l3.cfg", "MC_core_l4.cfg", "MC_core_w3l3.cfg"]
+THOROUGH = ["MC_core_w3.cfg", "MC_core_l3.cfg", "MC_core_l4.cfg", "MC_core_w3l3.cfg", "MC_core_w3c7.cfg", "MC_core_l4c9.cfg", "MC_core_w3l3c7.cfg", "MC_cmd_w2.cfg"]
 NEGS = {"NEG_WakeAtLimit.cfg": ["C03_NoLostWake"], "NEG_WakeAtLimit_l2.cfg": ["C03_NoLostWake"],
         "NEG_WakeAtLimit_w2.cfg": ["C03_NoLostWake"], "NEG_WakeSkipsAcceptAll.cfg": ["C03_NoLostWake"],
         "NEG_BackoffNeverReregisters.cfg": ["C03_NoLostWake"]}
